@@ -52,6 +52,11 @@ NEEDS = {
  'C11_3': ('engine error returns before TargetActors::terminate (main.rs `?`)', 'one-shot; a service started, then a failing build'),
  'C17_3': ('a process-wide async mutex held across the build script for targets with inputs', 'two independent builds both declaring inputs, one of them slow'),
  'C20_3': ('root loop keeps one actual kind per root id: a later Ok overwrites the earlier one', 'one-shot; requested aggregate over a service and a build finishing after the service started'),
+ 'C02_3': ('X.output producers already listed under `dependencies` are filtered out before their outputs are inherited', 'a target naming X both ways plus an input of its own; then a change of X\'s outputs only'),
+ 'C05_3': ('a build script killed by a signal is reported as success (exit_status.code() filter)', 'the script shell itself dies from a signal; then a second invocation on the unchanged tree'),
+ 'C09_3': ('X.output of a service/aggregate no longer rejected when X is also listed in dependencies', 'a reachable target naming a non-build X both in dependencies and as X.output'),
+ 'C12_3': ('bare --clean deletes one checksums file per declared target and removes .zinoma only if empty', 'state of a target that is no longer declared (renamed) at the time of the full clean'),
+ 'C13_3': ('producers named both ways are filtered before their outputs are merged into the consumer\'s input', 'a consumer naming the same producer under dependencies and as X.output (same or imported project)'),
 }
 rows = []
 for d in sorted(glob.glob('/verif/seeded/C*_*')):
